@@ -451,13 +451,16 @@ def _projection_cases(ctx, hs):
             before, ops = _tx_of(ev)
             if not ops:
                 continue
-            checks.append(SG.tx_case(ev, before, ev["after"], ops, M.to_coq))
-            kind = ev["op"] + ((":" + ev["recycle"]) if ev.get("recycle") else "")
+            fired = False
             if ev["op"] in ("define", "amend", "static") and before is not None:
                 was = {s["key"] for s in before["steps"] if s["deferred"] and s["state"] == M.PENDING}
-                if any(s["key"] in was and not s["deferred"] and s["state"] == M.PENDING for s in ev["after"]["steps"]):
-                    # step_node_undefer_reattached fired (model/Graph.v does not have the trigger: verdict 7)
+                fired = any(s["key"] in was and not s["deferred"] and s["state"] == M.PENDING for s in ev["after"]["steps"])
+                if fired:
+                    # step_node_undefer_reattached fired: model/Graph.v does not have the trigger, verdict 7 is accepted
+                    # for this transaction (and only here)
                     ctx.count("projection_transactions_where_the_undefer_trigger_fired")
+            checks.append(SG.tx_case(ev, before, ev["after"], ops, M.to_coq, allow_state_certificate=fired))
+            kind = ev["op"] + ((":" + ev["recycle"]) if ev.get("recycle") else "")
             if "scenario" in h:
                 ctx.count("scenario_transactions")
             descr.append((kind, hi, ei))
@@ -492,7 +495,9 @@ def _projection_cases(ctx, hs):
                    "4": "the state before does not satisfy J or is not coupled to the snapshot",
                    "5": "the state after the transaction does not satisfy J (inv_core_b && ntc_b)",
                    "6": "the result of the replay is not coupled to the state after the transaction",
-                   "7": "certified with the stored workflow read off the result"}.get(
+                   "7": "the transaction model's own result is not coupled to the replayed (= real) tables, although the "
+                        "trigger step_node_undefer_reattached did not fire (model/Graph.v and the code disagree on a "
+                        "structural column)"}.get(
                        (vals[0] or "").strip(), str(vals[0]))
         ctx.add_failure(
             "correspondence", "projection:" + kind, sig,
